@@ -251,3 +251,24 @@ Proof.
     split; [exact W2|]. perm_dp.
 Qed.
 End Wf.
+
+(* ---- corollaries for whole sampler passes -------------------------------------------------------------- *)
+Lemma deltas_nil es : Forall (fun e => delta e = []) es -> deltas es = [].
+Proof. induction 1 as [|e es He _ IH]; cbn [deltas]; [reflexivity|]. rewrite IH, He. reflexivity. Qed.
+(* any composition of moves (nothing added) returns exactly the data it was given *)
+Theorem moves_conserve Sf prior vone es t t' :
+  wf t -> pres Sf prior vone es t -> Forall (fun e => delta e = []) es -> run Sf prior vone es t = Some t' ->
+  wf t' /\ Permutation (points t') (points t).
+Proof.
+  intros Hwf Hp Hd E. destruct (wf_run Sf prior vone es t t' Hwf Hp E) as [W P]. split; [exact W|].
+  rewrite (deltas_nil es Hd) in P. exact P.
+Qed.
+(* a pass that builds a tree from the empty one holds exactly the points its steps added (an SMC pass adds
+   the k-th point of the permutation at step k, by NewClone / AddPoint) *)
+Theorem build_conserves Sf prior vone es t' :
+  pres Sf prior vone es (empty_tree vone) -> run Sf prior vone es (empty_tree vone) = Some t' ->
+  wf t' /\ Permutation (points t') (deltas es).
+Proof.
+  intros Hp E. destruct (wf_run Sf prior vone es _ t' (wf_empty vone) Hp E) as [W P]. split; [exact W|].
+  unfold points at 2 in P. cbn [empty_tree troots outl points_f flat_map app] in P. rewrite app_nil_r in P. exact P.
+Qed.
